@@ -6,7 +6,7 @@ from models import curve, selfcheck
 PROPERTY_ID = "C13"
 RULE = ("one-step programs: seeds {00.., FF.., 3 RFC 8032 seeds, 6 patterns} x messages (every length 0..=300 for two seeds; boundary lengths "
         "{0,1,31,32,33,63,64,65,95,96,97,111,112,127,128,129,255,256,257,1023,1024} for all seeds): keypair (both halves, layout, accessors), signature, "
-        "signature_extended(clamp(SHA512(seed))) identical, extended_to_public, exchange == X25519(hashed secret, (1+y)/(1-y)) for honest public keys and for small-order / non-canonical / y=1 / non-point strings; oracle = python RFC 8032; "
+        "signature_extended(clamp(SHA512(seed))) identical, extended_to_public, exchange == X25519(hashed secret, (1+y)/(1-y)) for honest public keys and for small-order / non-canonical / y=1 / non-point strings; plus a key-derivation sweep over every single-bit seed, constant-byte seeds and pattern windows, and a sweep of 4000 (thorough 20000) short messages under one key; oracle = python RFC 8032; "
         "distinct = program text")
 ASSUMPTIONS = ["python RFC 8032 model (validated on RFC 8032 7.1 tests 1-3 and 15 OpenSSL signatures)", "seeds and message content from the enumerated alphabet"]
 
@@ -61,6 +61,38 @@ def seed_cases(si, tier):
     return out
 
 
+def sweep_seed_cases(part, nparts, tier):
+    """many more seeds for key derivation only (the secret scalar's recoding is value dependent): every single-bit seed and pattern windows"""
+    out = []
+    sd = [bytes(31 - i // 8) + bytes([1 << (i % 8)]) + bytes(i // 8) for i in range(256)]
+    sd += [bytes([b]) * 32 for b in range(1, 255, 3)]
+    sd += [pat(k, o, 32) for k in (5, 6, 7) for o in range(100, 100 + (40 if tier == "thorough" else 10))]
+    for j, seed in enumerate(sd):
+        if j % nparts != part:
+            continue
+        kp, pub = curve.ed_keypair(seed)
+        ext = curve.ed_expand(seed)
+        sig = curve.ed_sign_extended(b"x", ext, pub).hex()
+        out.append((["ed_keypair %s" % H(seed), "ed_ext_to_pub %s" % H(ext), "ed_sign h:78 %s" % H(kp)],
+                    ["%s.%s.%s.%s" % (kp.hex(), pub.hex(), seed.hex(), pub.hex()), pub.hex(), sig], None))
+    return out
+
+
+def sweep_msg_cases(part, nparts, tier):
+    """many short messages under one key: three wide scalar reductions per signature, each value dependent"""
+    out = []
+    seed = pat(6, 0, 32)
+    kp, pub = curve.ed_keypair(seed)
+    ext = curve.ed_expand(seed)
+    n = 20000 if tier == "thorough" else 4000
+    for i in range(n):
+        if i % nparts != part:
+            continue
+        msg = b"message %d" % i
+        out.append((["ed_sign %s %s" % (H(msg), H(kp))], [curve.ed_sign_extended(msg, ext, pub).hex()], None))
+    return out
+
+
 def cases(tier):
     out = []
     for si in range(len(seeds())):
@@ -69,7 +101,16 @@ def cases(tier):
 
 
 def shards(tier):
-    return [("shard", i) for i in range(len(seeds()))]
+    return [("shard", i) for i in range(len(seeds()))] + [("shard_sweep", ("seed", i)) for i in range(8)] + [("shard_sweep", ("msg", i)) for i in range(8)]
+
+
+def shard_sweep(arg, tier):
+    kind, i = arg
+    ck = core.Checker(PROPERTY_ID)
+    cs = sweep_seed_cases(i, 8, tier) if kind == "seed" else sweep_msg_cases(i, 8, tier)
+    ck.run(cs)
+    ck.stats.states = len(cs)
+    return ck.stats
 
 
 def shard(i, tier):
